@@ -65,20 +65,22 @@ TEXT = {
         technique="runtime API-consistency monitor with counting operator wrapper and factorization hook events, ASan+UBSan build"),
     "C06": dict(
         level_text="Exploration: history checker comparing, bit for bit, the observed init(v); compute(args) on a fresh solver, on a solver reused after a random pre-history (incl. non-converging and "
-                   "throwing computes) and on a second solver sharing the operator object; operator probed with a fixed vector before/after compute(). 3000 (quick) triples over 17 configurations.",
+                   "throwing computes - thrown at once, and thrown late: an unsupported sorting rule is rejected only after the iteration) and on a second solver sharing the operator object; operator probed "
+                   "with a fixed vector before/after compute() and after every step of the pre-history. 3000 (quick) triples over 17 configurations.",
         design_ref="DESIGN.md section 3, C06",
         level_note=NOTE_COMMON + " Davidson / PartialSVD reuse is covered by C15 / C16.",
         technique="runtime history checker (bitwise snapshot comparison, operator probe), ASan+UBSan build"),
     "C13": dict(
         level_text="Exploration under two sanitizer builds (Eigen assertions on / release-like): ~4500 hostile runs per build and tier over 17 solver configurations + PartialSVD with degenerate matrices, "
-                   "validating operator wrapper, operator-application bound, finiteness/exception classifier; plus a small-scope enumeration (~12000 states quick) of the private restart bookkeeping "
+                   "validating operator wrapper, operator-application bound plus a CPU-seconds budget per case for loops that apply no operator (30 CPU-s where cases take milliseconds; confirmed by "
+                   "re-running the case alone), finiteness/exception classifier; plus a small-scope enumeration (~12000 states quick) of the private restart bookkeeping "
                    "(nev_adjusted + the real restart) through guarded friend access for every ncv <= 10 (14 thorough).",
         design_ref="DESIGN.md section 3, C13",
         level_note=NOTE_COMMON + " Buckling mode with a singular K_G (eigenvalues at infinity) is outside the documented domain and not generated.",
         technique="AddressSanitizer/UBSan + validating/counting operator wrapper + outcome classifier over hostile workloads; small-scope state enumeration through guarded friend"),
     "C14": dict(
-        level_text="Fault enumeration, exhaustive in the fault index: for 102 (quick) solver/input pairs every operator application index of the fault-free run (A-operator and B-operator) is faulted once "
-                   "(~15000 faulted runs) plus ~9000 fault pairs; exception identity, call site, bitwise recovery against the baseline, allocated bytes and LeakSanitizer.",
+        level_text="Fault enumeration, exhaustive in the fault index: for 102 (quick) solver/input pairs every operator application index of the fault-free run (A-operator and B-operator) is faulted with an object derived from std::exception "
+                   "and with one that is not (plain struct / enum value; ~30000 faulted runs) plus ~9000 fault pairs; exception identity, call site, bitwise recovery against the baseline, allocated bytes and LeakSanitizer.",
         design_ref="DESIGN.md section 3, C14",
         level_note=NOTE_COMMON,
         technique="exhaustive fault injection at the operator wrapper with bitwise baseline comparison, ASan+LSan build"),
@@ -106,14 +108,16 @@ TEXT = {
         level_text="Exploration with two runtime oracles over ~15000 (quick) runs of 17 solver configurations on spectra prescribed by construction: (1) on every run and outcome, the returned values "
                    "(mapped to the iterated spectrum) must be the rule's top choice among the Ritz values of the final factorization (read through the guarded friend) - deterministic, catches any "
                    "selection-logic slip; (2) when Successful, the returned set must equal the rule's top-k of the true spectrum - judged strictly for ncv = n, where it is exact for every rule, and on a "
-                   "fixed corpus elsewhere (implicit restart with early stopping misses sporadically; observed misses are counted in the evidence and the failing corpus members are listed).",
+                   "fixed corpus elsewhere (implicit restart with early stopping misses sporadically; observed misses are counted in the evidence and the failing corpus members are listed). "
+                   "Half of the cases then ask the same object again, without init(), for a different rule and judge that answer with both oracles.",
         design_ref="DESIGN.md sections 3 (C04) and 4",
         level_note=NOTE_COMMON + " Davidson, PartialSVD and LOBPCG selection is judged in C15, C16, C17.",
         technique="runtime reference-model comparison (prescribed spectra) + Ritz-relative selection oracle through guarded friend access; plain build"),
     "C11": dict(
         level_text="Exploration over the enumerated configuration space of the 16 wrapper classes (~150 instantiations incl. all 64 SymShiftInvert combinations, both storage-index types, three scalar "
                    "types) at sizes 1, 2 and random n: extended-precision reference comparison of every documented operation, byte-identical outputs under NaN / junk poisoning of the triangle the "
-                   "wrapper must not read, Map / strided-block / expression inputs under ASan.",
+                   "wrapper must not read, every wrapper (both sides of SymShiftInvert) also constructed on a block of a larger matrix, a strided Map, a contiguous Map and an expression (dense) "
+                   "or on uncompressed storage, a Map of the compressed arrays, an inner panel of a wider matrix and an expression (sparse), under ASan.",
         design_ref="DESIGN.md section 3, C11",
         level_note=NOTE_COMMON,
         technique="runtime oracle (extended-precision reference + metamorphic triangle poisoning) over enumerated template configurations, ASan+UBSan build"),
